@@ -38,7 +38,7 @@ class C04(ParseProp):
     rule = ('exhaustive small texts and seeded random texts (<= 24 chars) over an alphabet with filtered-able whitespace, '
             'brackets, multi-byte/wide chars and a scanner-rejected char; plain, counting and modal scanners; 9 filter '
             'predicates; LF/CR/CRLF and several tab widths; the lexer is advanced with next() to exhaustion (+2 extra calls) '
-            'observing token, token_span, parse_span each time, and drained with iter_with_spans (clipped text ranges); '
+            'observing token, token_span, parse_span each time, and drained with iter_with_spans (clipped text ranges); plus histories that install another filter mid-stream after deliveries and a look-ahead, then drain; '
             'non-trivial = >= 3 tokens and (a filter that removes something or a rejected char); distinct by case')
     assumptions = ['scanners are the three harness scanners; metrics configured before the filter (builder order is C03)']
 
@@ -62,6 +62,19 @@ class C04(ParseProp):
             t = spangen.random_text(r, ALPHA, 24)
             add(r.choice(['plain', 'counting', 'counting', 'modal']), r.choice(['lf', 'cr', 'crlf']), 1 + r.below(9),
                 r.choice(FILTERS), t)
+        # a filter installed mid-stream, after deliveries and a look-ahead: from then on the deliveries are the rest of the
+        # unfiltered sequence minus what the NEW filter rejects (at least one token has been delivered since the start, so
+        # the lexer is not at a parse start: the recorded C05 finding about eager skips is out of play)
+        for i in range(400 if tier == 'quick' else 4000):
+            t = spangen.random_text(r, ['a', 'b', 'sp', 'sp', 'comma', 'lp', 'TAB', 'LF'], 14)
+            k = 1 + r.below(3)
+            ops = ['next'] * k + (['peek'] if r.chance(3, 4) else []) + [['setfilter', r.choice(FILTERS)]]
+            if r.chance(1, 3):
+                ops += ['next', 'peek', ['setfilter', r.choice(FILTERS)]]
+            ops += ['drain', 'next']
+            n += 1
+            out.append(parsegen.lex_case('c%d' % n, r.choice(['plain', 'counting', 'modal']), t,
+                                         [['metrics', r.choice(['lf', 'crlf']), 4], ['filter', r.choice(FILTERS[1:])]], ops))
         return out
 
     def nontrivial(self, ct, it):
@@ -94,6 +107,16 @@ class C04(ParseProp):
                     wps = first_start + '~' + lexsim.fmt_pos(t['end'])
                     if o['ps'] != wps:
                         fails.append(((ei,), 'parse_span after %s: got %s, expected %s' % (t['tok'], o['ps'], wps))); break
+            elif o['name'] == 'peek':
+                t = ref.peek()
+                want = '-' if t is None else t['tok']
+                if o['res'] != want:
+                    fails.append(((ei,), 'peek %d: got %s, sequential scan with the filter gives %s' % (ei - 1, o['res'], want))); break
+            elif o['name'] == 'setfilter':
+                if ref.first() is None and ref.i < len(toks):
+                    break          # nothing deliverable under the old filter: the lexer has scanned to the end (C05's domain)
+                f2 = c['ops'][ei - 2][1]
+                ref.flt = None if f2 == 'none' else f2
             elif o['name'] == 'drain':
                 want = [[t['tok'], t['span'], t['range']] for t in ref.drain()]
                 if o['res'] != want:
